@@ -62,6 +62,7 @@ def forked(fn, *args, timeout: float = 900.0):
         try:
             os.close(r)
             try:
+                _worker_init()
                 out = ("ok", fn(*args))
             except BaseException as e:  # noqa: BLE001 - reported to the parent
                 import traceback
@@ -306,7 +307,7 @@ def campaign(prop: str, tier: str, verif_seed: int, spec: dict, workers: int | N
         print(f"# enumerated plan: {plan_n} (base input x fault) evaluations", flush=True)
     batch = max(5, min(200, total // (workers * 6) or 1))
     if getattr(E, "INDEXED", False):
-        batch = 16  # evaluation cost varies a lot between faults: small batches keep the workers balanced
+        batch = getattr(E, "BATCH", 16)  # evaluation cost varies a lot between faults: small batches keep the workers balanced
     jobs = [(s, min(batch, total - s)) for s in range(0, total, batch)]
     deadline = t0 + budget
     timed_out = False
